@@ -7,6 +7,9 @@ import Bourse.Props.C14
 import Bourse.Props.C15
 import Bourse.Lemmas.EnvInv
 import Bourse.Props.C01
+import Bourse.Props.C03
+import Bourse.Props.C04
+import Bourse.Props.C12
 
 namespace Bourse.Props.C08
 open Bourse
@@ -199,6 +202,47 @@ theorem simulation_asset_is_reference_engine (t0 : Nat) (ticks : List Nat) (step
   rw [env_history_is_book_history, htk]
   simp only [Option.map_some]
   rw [C01.state_is_reference_state t0 tk trading hpos _ hv hnf]
+
+/-! Three more lifts through the projection, as samples of the general principle (each is the
+book-history theorem of the named property applied to `env_history_is_book_history`): -/
+
+/-- C12 in simulations: after any environment history every order of every asset is a market order or
+priced on that asset's tick grid — with no hypothesis at all on what was submitted. -/
+theorem simulation_prices_on_grid (t0 : Nat) (ticks : List Nat) (stepSize : Nat) (trading : Bool) (n : Nat)
+    (g : Xoro) (ops : List MEnv.EOp) (a tk : Nat) (htk : ticks[a]? = some tk) (b : Book)
+    (hb : (MEnv.runOps (MEnv.new t0 ticks stepSize trading n, g) ops).1.market.books[a]? = some b) :
+    ∀ e ∈ b.orders, Book.isMarket e.order = true ∨ e.order.price % tk = 0 := by
+  rw [env_history_is_book_history, htk] at hb
+  simp only [Option.map_some, Option.some.injEq] at hb
+  rw [← hb]
+  exact C12.prices_on_grid_always t0 tk trading _
+
+/-- C04 in simulations: an order of any asset that is still New or Active carries no end time. -/
+theorem simulation_open_orders_have_no_end_time (t0 : Nat) (ticks : List Nat) (stepSize : Nat) (trading : Bool) (n : Nat)
+    (g : Xoro) (ops : List MEnv.EOp) (a tk : Nat) (htk : ticks[a]? = some tk) (hpos : 0 < tk)
+    (hv : ∀ op ∈ (envMarketOps (MEnv.new t0 ticks stepSize trading n, g) ops).filterMap (C14.project a), ValidOp op)
+    (hnf : NoFault (Book.new t0 tk trading) ((envMarketOps (MEnv.new t0 ticks stepSize trading n, g) ops).filterMap (C14.project a)))
+    (b : Book) (hb : (MEnv.runOps (MEnv.new t0 ticks stepSize trading n, g) ops).1.market.books[a]? = some b) :
+    ∀ (id : Nat) (e : Entry), b.orders[id]? = some e → isTerminal e.order.status = false → e.order.endt = MAXT := by
+  rw [env_history_is_book_history, htk] at hb
+  simp only [Option.map_some, Option.some.injEq] at hb
+  rw [← hb]
+  exact C04.open_orders_have_no_end_time t0 tk trading hpos _ hv hnf
+
+/-- C03 in simulations: in a history without explicit volume modifications every order of every asset
+has lost exactly the volume of its logged trades, and every record names existing orders. -/
+theorem simulation_volume_conserved (t0 : Nat) (ticks : List Nat) (stepSize : Nat) (trading : Bool) (n : Nat)
+    (g : Xoro) (ops : List MEnv.EOp) (a tk : Nat) (htk : ticks[a]? = some tk) (hpos : 0 < tk)
+    (hv : ∀ op ∈ (envMarketOps (MEnv.new t0 ticks stepSize trading n, g) ops).filterMap (C14.project a), ValidOp op)
+    (hm : ∀ op ∈ (envMarketOps (MEnv.new t0 ticks stepSize trading n, g) ops).filterMap (C14.project a), NoVolModify op)
+    (hnf : NoFault (Book.new t0 tk trading) ((envMarketOps (MEnv.new t0 ticks stepSize trading n, g) ops).filterMap (C14.project a)))
+    (b : Book) (hb : (MEnv.runOps (MEnv.new t0 ticks stepSize trading n, g) ops).1.market.books[a]? = some b) :
+    (∀ (id : Nat) (e : Entry), b.orders[id]? = some e → e.order.vol + tradedOf id b.trades = e.order.svol) ∧
+    (∀ tr ∈ b.trades, tr.active < b.orders.length ∧ tr.passive < b.orders.length) := by
+  rw [env_history_is_book_history, htk] at hb
+  simp only [Option.map_some, Option.some.injEq] at hb
+  rw [← hb]
+  exact C03.volume_conserved_history t0 tk trading hpos _ hv hm hnf
 
 /-- Non-vacuity: the history of the earlier example (three submissions, a queued cancel, a queued
 modify, one step) as environment operations: the run satisfies `EnvRunOk` — so the theorems above
